@@ -532,4 +532,38 @@ example : (exec { out := 0, err := 1 } (.seq (.scope .err true 2 (.render 0)) (.
 
 end IndentShared
 
+/-! ## Non-vacuity of the theorems added in rounds 8-9 (hypothesis audit) -/
+
+section AuditR9
+open Clikit Clikit.IndentShared
+
+/-- `indent_restores_shared`, hypothesis discharged: the shared object 0 is listed twice (an I/O whose channels are one
+`Output`); inside the scope somebody set it to 9; leaving gives the heap as it was (indentation 1) -/
+example : leave [0, 0] (enter (heapOf 1 1) [0, 0] true 2).2
+    (Heap.set (enter (heapOf 1 1) [0, 0] true 2).1 0 9) = heapOf 1 1 :=
+  indent_restores_shared (heapOf 1 1) [0, 0] true 2 _ (by
+    intro x hx
+    have h0 : x ≠ 0 := by simpa using hx
+    simp only [Heap.set, if_neg h0]
+    exact apply_frame true 2 [0, 0] _ x hx)
+
+private def before : Prog := .seq (.scope .io true 2 (.render 0)) (.attempt (.scope .out false 7 .raise))
+
+/-- `render_independent_of_history` / `render_twice_same` on a shared object: `before` ends normally (its exception is
+caught), so what `render 5` finds afterwards is what it finds first thing -/
+example : (exec { out := 0, err := 0 } (.seq before (.render 5)) (heapOf 1 1)).1 =
+    (exec { out := 0, err := 0 } before (heapOf 1 1)).1 ++ (exec { out := 0, err := 0 } (.render 5) (heapOf 1 1)).1 :=
+  render_independent_of_history _ before (.render 5) (heapOf 1 1) (by decide)
+example : ∃ w, (exec { out := 0, err := 0 } (.seq (.render 5) (.seq before (.render 5))) (heapOf 1 1)).1 =
+    [(5, 1, 1)] ++ w ++ [(5, 1, 1)] :=
+  render_twice_same { out := 0, err := 0 } 5 before (heapOf 1 1) (by decide)
+/-- the hypothesis excludes a history that ends with a propagating exception -/
+example : (lexical { out := 0, err := 0 } (.scope .out false 7 .raise) (heapOf 1 1)).2 = true := by decide
+
+/-- `late_snapshot_same_when_distinct`: two output objects -/
+example : (execP true { out := 0, err := 1 } before (heapOf 1 3)).1 = (exec { out := 0, err := 1 } before (heapOf 1 3)).1 := by
+  rw [late_snapshot_same_when_distinct { out := 0, err := 1 } (by decide) before (heapOf 1 3)]
+
+end AuditR9
+
 end Clikit.Props.C17
